@@ -180,7 +180,7 @@ class C08(Prop):
             ">= 2 grounded items")
     assumptions = ["programs whose fresh grounding of the same queries/evidence is itself wrong are excluded (C01 cases)"]
     families = {"quick": [("FTWIN", 4), ("F2.3", 192), ("F3.1", 32), ("F2.2", 8), ("F1.1", 4)],
-                "thorough": [("FTWIN", 4), ("F3.3/16", 64), ("F2.4/8", 64), ("F3.2", 96), ("F2.3", 192), ("F1.3s", 48), ("F1.2q", 128),
+                "thorough": [("FTWIN", 4), ("F3.3/64", 32), ("F2.4/32", 32), ("F3.2/8", 32), ("F2.3", 192), ("F1.3s/4", 48), ("F1.2q/8", 64),
                              ("F3.1", 16), ("F2.2", 8), ("F1.1", 4)]}
     budget = {"quick": 400, "thorough": 2700}
 
